@@ -348,6 +348,8 @@ KNOWN_DEFECT_core_maxAssemNum_recomputed_on_load = True
 #   (duct, coolant) at CoordinateLocation(0,0,0): same point, other locator class; non-zero free coordinates would
 #   come back at another point.  While True, exactly that zero case is rendered as the index location it loads as.
 KNOWN_DEFECT_free_coordinates_in_gridded_parent_load_as_indices = True
+#   When False, "a component of a pin block is moved to free coordinates (1.5, 2.0, 0.0)" joins the solver's choice of
+#   what happened before the snapshot (it comes back 2 cm away).
 
 
 def norm(v):
@@ -576,9 +578,9 @@ def fresh_like(v, k):
     return None
 
 
-def assign_free_parameters(o):
+def assign_free_parameters(o, length=2, shift=0):
     """every persistent parameter of the object that holds a number, a numeric sequence or nothing gets a new value
-    of its own kind (pairwise different increments)"""
+    of its own kind (pairwise different increments); parameters that keep arrays get one of the given length"""
     from armi.reactor import parameters
     from armi.reactor.components import Component
 
@@ -586,7 +588,7 @@ def assign_free_parameters(o):
     if isinstance(o, Component):
         skip |= MIRRORS["Component"] | set(o.DIMENSION_NAMES)
     done = []
-    for k, pd in enumerate(persistent(o)):
+    for k, pd in enumerate(persistent(o), start=shift):
         if pd.name in skip:
             continue
         try:
@@ -604,14 +606,19 @@ def assign_free_parameters(o):
             continue
         got = o.p[pd.name]
         if isinstance(got, np.ndarray) and got.ndim == 0:      # the parameter keeps arrays: give it one
-            o.p[pd.name] = np.array([float(got), float(got) + 1.0])
+            o.p[pd.name] = float(got) + np.arange(length, dtype=float)
         done.append(pd.name)
     return done
 
 
 WHICH_ASSEMBLY = ["none", "second assembly (fuel b)", "first assembly (fuel a)", "third assembly (fuel a)"]
 ASSIGN_LEVELS = ["none", "reactor", "core", "spent fuel pool", "assembly", "fuel block", "pinned block",
-                 "fuel component", "linked component", "derived-shape component"]
+                 "fuel component", "linked component", "derived-shape component", "two blocks"]
+FREE_COORDINATES = "component moved to free coordinates inside a pin block"
+
+
+if not KNOWN_DEFECT_free_coordinates_in_gridded_parent_load_as_indices:
+    ASSIGN_LEVELS.append(FREE_COORDINATES)
 
 
 def _assembly(assems, k):
@@ -655,7 +662,9 @@ def pick(x, lo, hi):
 LAST = (0, 3)               # none / the third assembly (fuel a: pin lattice block, highest assembly number)
 ALL = (0, 1, 2, 3)
 QUICK = [dict(modes=(False, True), assemblies=LAST, levels=("none",), atMost=2),
-         dict(modes=(False, True), assemblies=(0,), levels=tuple(ASSIGN_LEVELS[1:]), atMost=1)]
+         dict(modes=(False, True), assemblies=(0,), atMost=1,
+              levels=tuple(lv for lv in ASSIGN_LEVELS[1:] if lv not in ("reactor", "fuel block", "linked component",
+                                                                         "derived-shape component")))]
 THOROUGH = [dict(modes=(ro,), assemblies=ALL, levels=(lv,), atMost=3) for ro in (False, True) for lv in ASSIGN_LEVELS]
 
 
@@ -664,13 +673,15 @@ THOROUGH = [dict(modes=(ro,), assemblies=ALL, levels=(lv,), atMost=3) for ro in 
                        "Solver-chosen history before the snapshot: which assembly (none / 1st / 2nd / 3rd) changed "
                        "block heights; which was burnt (U235 depleted, percentBu advanced); which had its fuel heated "
                        "by 75 K; which was discharged to the spent fuel pool; which object (none / reactor / core / "
-                       "pool / assembly / block / pinned block / fuel, linked or derived-shape component) had every "
-                       "free persistent parameter assigned a new value of its kind; load mode (plain with cs and "
-                       "blueprints handed over / read-only with both re-read from the file).  Quick tier: any 2 of "
-                       "the four assembly-level changes on the 2nd / 3rd assembly, or one assignment, each with both "
-                       "load modes; thorough: any 3 of the five kinds on any assembly.  Parameter values concrete.",
+                       "pool / assembly / block / pinned block / fuel, linked or derived-shape component / two blocks "
+                       "with arrays of different lengths) had every free persistent parameter assigned a new value "
+                       "of its kind; load mode (plain with cs and blueprints handed over / read-only with both "
+                       "re-read from the file).  Quick tier: any 2 of the four assembly-level changes happening to "
+                       "the 3rd assembly, or one assignment (core, pool, assembly, pinned block, fuel component, two "
+                       "blocks), each with both load modes; thorough: any 3 of the five kinds, each on any assembly "
+                       "/ any object.  Parameter values concrete.",
          stubs=STUBS, max_paths=5000, raises=(), instances={"quick": QUICK, "thorough": THOROUGH})
-def saved_reactor_loads_back_observationally_equal(ctx, modes, assemblies, levels, atMost, oneAssembly=False):
+def saved_reactor_loads_back_observationally_equal(ctx, modes, assemblies, levels, atMost):
     _install()
     _fresh_process_state()
     nA = len(WHICH_ASSEMBLY) - 1
@@ -685,9 +696,6 @@ def saved_reactor_loads_back_observationally_equal(ctx, modes, assemblies, level
     ctx.assume(OR(*[level == ASSIGN_LEVELS.index(lv) for lv in levels]))
     ctx.assume(OR(*[readOnly if m else NOT(readOnly) for m in modes]))
     ctx.assume(sum(ITE(x != 0, 1, 0) for x in (heights, burnt, heated, gone, level)) <= atMost)
-    if oneAssembly:
-        four = (heights, burnt, heated, gone)
-        ctx.assume(AND(*[OR(x == 0, y == 0, x == y) for i, x in enumerate(four) for y in four[i + 1:]]))
     heights, burnt, heated, gone = (pick(x, 0, nA) for x in (heights, burnt, heated, gone))
     level = ASSIGN_LEVELS[pick(level, 0, len(ASSIGN_LEVELS) - 1)]
     readOnly = True if readOnly else False
@@ -700,7 +708,16 @@ def saved_reactor_loads_back_observationally_equal(ctx, modes, assemblies, level
         burn(r, _assembly(assems, burnt))
     if heated:
         heat(r, _assembly(assems, heated))
-    if level != "none":
+    if level == FREE_COORDINATES:
+        from armi.reactor.flags import Flags
+
+        pinned = assems[2][2]
+        pinned.getComponent(Flags.COOLANT).spatialLocator = grids.CoordinateLocation(1.5, 2.0, 0.0, pinned.spatialGrid)
+    elif level == "two blocks":
+        # two objects of one class: their array-valued parameters differ in length (a ragged collection in the file)
+        assign_free_parameters(assems[1][1])
+        assign_free_parameters(assems[2][1], length=3, shift=3)
+    elif level != "none":
         assign_free_parameters(_target(r, assems, level))
     if gone:
         discharge(r, _assembly(assems, gone))
@@ -731,9 +748,15 @@ def saved_reactor_loads_back_observationally_equal(ctx, modes, assemblies, level
         compare(ctx, "loaded twice", got, observe(second))
         ctx.check("the two loads share no object", not ({id(o) for _, o in walk(first)} & {id(o) for _, o in walk(second)}))
         store2 = _Store(cs)
-        store2.save(first)
-        third = store2.load(first, bp, readOnly)
-        compare(ctx, "saved again and loaded vs saved", original, observe(third))
+        try:
+            store2.save(first)
+            third = store2.load(first, bp, readOnly)
+            problem = None
+        except Exception as e:            # reported as an obligation, so that the differences found above are too
+            problem = "%s: %s" % (type(e).__name__, str(e)[:120])
+        ctx.check_eq("the loaded reactor can be saved and loaded again", problem, None)
+        if problem is None:
+            compare(ctx, "saved again and loaded vs saved", original, observe(third))
     finally:
         store.close()
         if store2 is not None:
